@@ -24,6 +24,13 @@ def run(rep, tier):
                                 extra=("r", cyc), nontrivial=nontrivial, oracle_props={"C04"},
                                 sample_fmt=sample, mask_model=muxsim.mask_r)
     rep.coverage.update(agg)
+    # ---- which layouts the sharing limit lets through at all: acceptance / refusal and shadow sizes of many
+    # more layouts than are simulated, against the model of _Shadow.prepare (a layout refused although a
+    # power-of-two size balances it is a change of observable behaviour caused by the limit)
+    sh = runner.correspondence(rep, prop=PROP, mod_name="harness.shadowc", driver_kind="mux",
+                               ncases=rep.scale(200) if tier == "quick" else 20000, oracle_props={PROP, "C19"})
+    rep.coverage["shadow_layouts"] = {"cases": sh["evaluations"], "correspondence_diffs": sh["correspondence_diffs"],
+                                      "oracle_failures": sh["oracle_failures"], "distribution": sh["distribution"]}
     rep.coverage["rule"] = ("random register layouts (widths 0..4W+3, r/w/rw, map alignment 0-2, aligned and unaligned explicit "
                             "placement, every shadow_overlaps in {None,0..3}) on the real csr.Multiplexer in amaranth.sim; "
                             "stimulus: uniformly random strobes/addresses, or interleaved complete/aborted read, write and "
